@@ -121,13 +121,14 @@ func (r *Reporter) formatPrettyError(violation Violation) string {
 			}
 		}
 
-		// Help section with documentation link
 		builder.WriteString(strings.Repeat(" ", lineNumWidth))
 		builder.WriteString(" |\n")
-		builder.WriteString("   = help: ")
-		builder.WriteString(codes.GetDocumentationURL(violation.GetCode()))
-		builder.WriteString("\n")
 	}
+
+	// Help section with documentation link (also when the source could not be shown)
+	builder.WriteString("   = help: ")
+	builder.WriteString(codes.GetDocumentationURL(violation.GetCode()))
+	builder.WriteString("\n")
 
 	return builder.String()
 }
